@@ -309,17 +309,24 @@ func init() {
 		if !*rich {
 			// the unit of minLength / maxLength on strings outside ASCII (bytes or code points: the statement does not say, but it is ONE unit):
 			// for every probe string the schemas {minLength: k, maxLength: k}, k = 0..9, accept it for exactly one k, its length
-			for _, probe := range []string{"\u00e9\u00e9", "\u043f", "a\u20ac", "\U0001F600", "a\u00e9", "\u00e9", "ab\u00e9\u00e9c", "\u20ac\u20ac\u20ac"} {
+			// the second member of a pair: the spelling of the document when it is not the plain one - \u escapes, a surrogate pair, and a
+			// surrogate escape without its partner (one replacement character, as every JSON decoder reads it; the text after it stays)
+			for _, pr := range [][2]string{{"\u00e9\u00e9", ""}, {"\u043f", ""}, {"a\u20ac", ""}, {"\U0001F600", ""}, {"a\u00e9", ""}, {"\u00e9", ""}, {"ab\u00e9\u00e9c", ""}, {"\u20ac\u20ac\u20ac", ""},
+				{"\U0001F600ab", `"\ud83d\ude00ab"`}, {"\u00e9A", `"\u00e9\u0041"`}, {"\ufffdabcdef", `"\ud800abcdef"`}, {"ab\ufffdcd", `"ab\udc00cd"`}, {"\ufffd\ufffdxy", `"\ud800\ud800xy"`}} {
+				probe, doctext := pr[0], pr[1]
+				if doctext == "" {
+					doctext = strconv.Quote(probe)
+				}
 				oks := []bool{}
 				for k := 0; k <= 9; k++ {
 					sch := jschema.New("s", fmt.Sprintf("%q // {minLength: %d, maxLength: %d}", strings.Repeat("a", k), k, k))
-					oks = append(oks, guard(func() error { return sch.Validate(jdoc.New("d", strconv.Quote(probe))) }).OK)
+					oks = append(oks, guard(func() error { return sch.Validate(jdoc.New("d", doctext)) }).OK)
 				}
 				cp := []int{}
 				for _, r := range probe {
 					cp = append(cp, int(r))
 				}
-				w.Write(map[string]interface{}{"op": "lenunit", "c": cp, "oks": oks, "text": "{minLength: k, maxLength: k}", "doctext": strconv.Quote(probe)})
+				w.Write(map[string]interface{}{"op": "lenunit", "c": cp, "oks": oks, "text": "{minLength: k, maxLength: k}", "doctext": doctext})
 				calls++
 			}
 		}
